@@ -46,7 +46,7 @@ MutAlphabet == IF Mode = "mc"
 (* words with a special meaning somewhere in the grammar (or in later editions of the specification):     *)
 (* tried in somewhat longer documents as well -- as another spelling of a name, or inserted                *)
 ProbeReplace == IF Which = "exec" THEN {"on", "true", "null"}
-                ELSE {"true", "null", "implements", "repeatable", "VARIABLE_DEFINITION"}
+                ELSE {"true", "false", "null", "implements", "repeatable", "VARIABLE_DEFINITION"}
 ProbeInsert  == IF Which = "exec" THEN {} ELSE {"repeatable", "STRING", "implements"}
 Small(n) == Mode = "sim" \/ n <= MaxMutLen
 MutKinds == {"drop", "dup", "swap", "trunc", "replace", "insert"}
@@ -128,5 +128,9 @@ Next == Expand \/ Emit \/ EmitWide \/ Finish \/ ChooseMutation \/ Mutate \/ End
 (* emission: one line per complete document and per mutant *)
 Emitted ==
   /\ phase = "done" => PrintT(<<"DOC", ToJson(out)>>)
-  /\ phase = (IF Mode = "mc" THEN "mutated" ELSE "end") => PrintT(<<"MUT", ToJson([m |-> mk, t |-> out])>>)
+  /\ phase = (IF Mode = "mc" THEN "mutated" ELSE "end") =>
+        PrintT(<<"MUT", ToJson([m |-> mk, t |-> out,
+                                \* a probe-word mutant of a document longer than MaxMutLen
+                                probe |-> \/ mk = "replace" /\ ~Small(Len(out))
+                                          \/ mk = "insert" /\ ~Small(Len(out) - 1)])>>)
 =============================================================================
